@@ -1,19 +1,98 @@
 import Nstd.Future.RingLemmas
-import Nstd.Future.Spec
+import Nstd.Future.SimRing
+import Nstd.Future.ProtoLemmas
+import Nstd.Future.Witness
 /-
-  Property C10 — theorems.  (under construction: the ring theorems are stated first)
+  Property C10 — "every Future call runs exactly once and join waits for its result".
+
+  Model: `Nstd.Future.Model` (micro-step transition system of Future / ThreadPool / LockFreeQueue /
+  FastSignal / Signal; any number of client threads and workers, any queue capacity; schedules are
+  universally quantified through `Reach`).  The model follows the REPAIRED code for `cfg.repaired = true`
+  (fixes/future/0001-0004, fixes/sync/0001) and the original code otherwise.
+
+  This file holds only the property theorems.  Safety theorems hold for both values of `repaired`.
 -/
 namespace Nstd.Future
 
-/-- Linearizability lemma of the lock-free ring, for every capacity, any number of threads, every schedule:
-    the payload a popper reads for ticket `x` is the `x`-th pushed payload, every ticket is popped at most once
-    (so the popped payloads, in ticket order, are a prefix-respecting sub-multiset of the pushed ones). -/
+/-! ## The lock-free ring -/
+
+/-- Linearizability lemma of the lock-free ring as a closed system (every capacity > 0, any number of
+    threads, every workload, every schedule): each ticket is popped at most once, the payload a popper reads
+    for ticket `x` is the `x`-th pushed payload (FIFO by ticket, popped multiset ⊆ pushed multiset), and
+    `head ≤ tail ≤ head + capacity`.  Nothing is assumed about `false` results (they may be spurious). -/
 theorem ring_is_fifo_multiset {α : Type} {cap : Nat} {s : RingSys α} (hc : 0 < cap) (h : RingReach cap s) :
     (s.ring.popLog.map Prod.fst).Nodup ∧
     (∀ x d, (x, d) ∈ s.ring.popLog → x < s.ring.head ∧ x < s.ring.pushLog.length ∧ d = s.ring.pushLog[x]?) ∧
     s.ring.head ≤ s.ring.tail ∧ s.ring.tail ≤ s.ring.head + cap ∧ s.ring.pushLog.length = s.ring.tail :=
   ⟨ring_popLog_nodup hc h,
-   fun x d hm => ⟨ring_popLog_lt_head hc h hm, (ring_popLog_sound hc h hm).1, (ring_popLog_sound hc h hm).2⟩,
+   fun _ _ hm => ⟨ring_popLog_lt_head hc h hm, (ring_popLog_sound hc h hm).1, (ring_popLog_sound hc h hm).2⟩,
    ring_head_le_tail hc h, ring_tail_le_head_cap hc h, ring_pushLog_length hc h⟩
+
+/-- A ticket is owned by one thread at a time: two different threads are never both past the successful CAS of
+    `pop` (resp. `push`) with the same ticket. -/
+theorem ring_ticket_handed_over_once {α : Type} {cap : Nat} {s : RingSys α} (hc : 0 < cap) (h : RingReach cap s)
+    {t u : Nat} (htu : t ≠ u) {p q : RingPc α} (hp : s.pcs t = some p) (hq : s.pcs u = some q) {x : Nat} :
+    (popTicket p = some x → popTicket q = some x → False) ∧ (pushTicket p = some x → pushTicket q = some x → False) :=
+  ⟨ring_claim_unique_pop hc h htu hp hq, ring_claim_unique_push hc h htu hp hq⟩
+
+/-- The same for the queue inside the full system: in every reachable state of the Future/ThreadPool model the
+    pool's job queue is a reachable state of the ring system (simulation), hence FIFO / at-most-once. -/
+theorem pool_queue_is_fifo_multiset {cfg : Config} {s : State} {p : Pool} (h : Reach cfg s) (hp : s.pool = some p) :
+    (p.ring.popLog.map Prod.fst).Nodup ∧
+    (∀ x d, (x, d) ∈ p.ring.popLog → x < p.ring.pushLog.length ∧ d = p.ring.pushLog[x]?) ∧
+    p.ring.head ≤ p.ring.tail ∧ p.ring.tail ≤ p.ring.head + capOf cfg ∧ p.ring.pushLog.length = p.ring.tail :=
+  ⟨full_popLog_nodup h hp, fun _ _ hm => full_popLog_sound h hp hm, full_head_le_tail h hp,
+   full_tail_le_head_cap h hp, full_pushLog_len h hp⟩
+
+/-- A worker never reads a raw (unconstructed / already destructed) queue slot: the job it takes out for ticket
+    `x` is the job pushed with ticket `x`. -/
+theorem pop_delivers_the_pushed_job {cfg : Config} {s : State} {p : Pool} (h : Reach cfg s) (hp : s.pool = some p)
+    {t : Tid} {th : Thread} (hth : s.threads t = some th) {x : Nat} {d : Option Job}
+    (htop : th.stack.head? = some (.ring (.popRel x d))) :
+    x < p.ring.pushLog.length ∧ d = p.ring.pushLog[x]? ∧ ∃ j, d = some j :=
+  ⟨(full_popRel_payload h hp hth htop).1, (full_popRel_payload h hp hth htop).2, full_popRel_some h hp hth htop⟩
+
+/-! ## The sleep / wake protocol (FastSignal), abstract system `Nstd.Future.Proto`
+
+  Resource counter guarded by a FastSignal, `nc` consumers (take / reset / re-check / wait), `ns` suppliers
+  (add / set), arbitrary numbers of both.  Both uses of FastSignal in the pool are instances. -/
+
+/-- Repaired `FastSignal::reset` (fix 0001): `_state = 1` is never left with the signal reset unless some thread is
+    still inside `set()`/`reset()` on its way to set the signal — the negation of defect D17. -/
+theorem fastsignal_set_not_lost {cfg : Proto.PCfg} (hrep : cfg.repaired = true) {s : Proto.PState}
+    (h : Proto.PReach cfg s) (hst : s.st = 1) :
+    s.sig = true ∨ (∃ j, j < cfg.ns ∧ s.sup j = .setSig) ∨
+    (∃ i, i < cfg.nc ∧ (s.cons i = .rstSig ∨ s.cons i = .rstLoad ∨ s.cons i = .rstSet ∨ s.cons i = .leaveSig)) :=
+  Proto.fastsignal_set_not_lost hrep h hst
+
+/-- Repaired protocol (fixes 0001 + 0003): with units available and a consumer asleep, the signal is set or some
+    thread is active — no lost wake-up, for every number of consumers and suppliers (abstract protocol). -/
+theorem no_stuck_protocol {cfg : Proto.PCfg} (hrep : cfg.repaired = true) (hho : cfg.handoff = true) {s : Proto.PState}
+    (h : Proto.PReach cfg s) : ¬ Proto.Stuck cfg s :=
+  Proto.proto_no_stuck hrep hho h
+
+/-- Negation witness, original `FastSignal::reset` (defect D17): the protocol reaches a stuck state. -/
+theorem d17_protocol_witness : ∃ s, Proto.PReach { nc := 2, ns := 1, repaired := false, handoff := true } s ∧
+    Proto.Stuck { nc := 2, ns := 1, repaired := false, handoff := true } s :=
+  Proto.d17_protocol_witness
+
+/-- Negation witness, a leaving consumer that does not pass the wake-up on (original worker loop). -/
+theorem swallowed_wakeup_witness : ∃ s, Proto.PReach { nc := 2, ns := 1, repaired := true, handoff := false } s ∧
+    Proto.Stuck { nc := 2, ns := 1, repaired := true, handoff := false } s :=
+  Proto.swallowed_wakeup_witness
+
+/-- Negation witness of `join_eventually`-style liveness on the FULL model of the ORIGINAL code (defect D17): a
+    schedule (277 micro-steps, replayed from a run of the real thread pool) after which threads are alive, none is
+    enabled, `_enqueuedSignal` has `_state = 1` with its Signal reset and a job is queued. -/
+theorem d17_model_witness : ∃ sched s, runSched (State.init d17Cfg) sched = some s ∧
+    allBlocked s = true ∧ someLive s = true ∧ enqInconsistent s = true := by
+  have h := d17_check
+  unfold d17Check at h
+  cases hr : runSched (State.init d17Cfg) d17Sched with
+  | none => rw [hr] at h; exact absurd h (by decide)
+  | some s =>
+    rw [hr] at h
+    simp only [Bool.and_eq_true] at h
+    exact ⟨d17Sched, s, hr, h.1.1, h.1.2, h.2⟩
 
 end Nstd.Future
